@@ -6,6 +6,8 @@ import Rare.Proofs.C07Acc
 import Rare.Proofs.C07Mode
 import Rare.Proofs.C07Sorted
 import Rare.Spec.C07Mode
+import Rare.Proofs.C07NumF64Arith
+import Rare.Proofs.C07AccOpt
 /-!
 C07 – Aggregators compute the exact fold of their sample history.
 
@@ -14,9 +16,10 @@ Spec: `Rare/Spec/C07.lean` (folds over the parsed history).  Model: `Rare/Model/
 and `Rare/Model/C07Acc.lean` (accumulator.go; spec `Rare/Spec/C07Acc.lean`).
 Every theorem quantifies over ALL histories (`List Bytes` of raw sample strings); int64 results are
 `wrap64` of the exact sum, i.e. the exact sum whenever it is representable (`total_exact`).
-Floating point: the numerical theorems are about the model instantiated with `Rat`; the same
-polymorphic definitions instantiated with IEEE doubles are compared bit for bit with the Go code by
-the correspondence driver (partial: no theorem mentions `Float`).
+Floating point: `welford_exact` … `mode_spec` are about the model instantiated with `Rat`; the `num_f64_*`
+theorems are about the SAME polymorphic definitions instantiated with the kernel-checkable software binary64
+`Rare.F64` (`Model/C07NumF64.lean`), which the correspondence compares bit for bit with the Go code
+(`agg numf` / `agg numfv`; Lean's opaque `Float` occurs only in drivers, as a second opinion).
 -/
 namespace Rare.C07
 open Rare.Expr (Comp Stage Ctx)
@@ -771,5 +774,326 @@ theorem table_ordered (d : Bytes) (hd : d ≠ []) (h : List Bytes) (less : NVLes
 example : StrictTotal (keyLess nvValueSorter (Counter.run exHist).countOf) := nvValue_strictTotal _
 example : (akeys (Counter.run exHist).items).Perm (akeys (Counter.run exHist).items) := List.Perm.refl _
 example : minSlice [1, 2, 3] 2 = Except.ok [1, 2] ∧ minSlice [1, 2, 3] 7 = Except.ok [1, 2, 3] := ⟨rfl, rfl⟩
+
+/-! ## numerical aggregator in IEEE-754 binary64
+
+Model: `Rare/Model/C07NumF64.lean` – `MatchNumerical` / `StatisticalAnalysis` over the kernel-checkable software
+float `Rare.F64` (every operation = the exact rational result rounded once, ties to even; NaN, ±Inf, ±0,
+subnormals included), compared bit for bit with the Go code by the driver ops `agg numf` / `agg numfv`.
+`runF` = a history of raw strings through `Sample` (`strconv.ParseFloat`), `runFv` = `Samplef` calls. -/
+
+/-- Counting.  `Sample` parses with `strconv.ParseFloat`; what does not parse (syntax, or range: the value rounds
+to ±Inf) only counts a parse error, the others go through `Samplef` in order.  `Count()` + `ParseErrors()` is the
+number of samples offered, and the kept values are the parsed samples in arrival order. -/
+theorem num_f64_count (keep : Bool) (h : List Bytes) :
+    let ok := h.filterMap F64.parseFloat
+    runF keep h = { runFv keep ok with parseErrors := h.countP (fun e => (F64.parseFloat e).isNone) } ∧
+    (runF keep h).samples = ok.length ∧
+    (runF keep h).samples + (runF keep h).parseErrors = h.length ∧
+    (runF keep h).values = (if keep then ok else []) := by
+  intro ok
+  have e := runF_eq keep h
+  refine ⟨e, ?_, ?_, ?_⟩
+  · rw [e]; exact runFv_samples keep ok
+  · rw [e]
+    show (runFv keep ok).samples + h.countP (fun e => (F64.parseFloat e).isNone) = h.length
+    rw [runFv_samples]; exact length_filterMap_add_countP _ _
+  · rw [e]; exact runFv_values keep ok
+
+/-- `Min()` / `Max()` are exact – comparisons do not round.  After any `Samplef` sequence `l`:
+neither is NaN (a NaN sample never wins a comparison, so NaN samples are ignored); `Min()` is ≤ and `Max()` is ≥
+every non-NaN sample in the IEEE order; `Min()` IS one of the samples as soon as one sample is below the initial
+sentinel `MaxFloat64` and is the sentinel itself otherwise (so `Min()` of samples that are all `+Inf` is
+`MaxFloat64`, not `+Inf` – the sentinel is a finite number, not +Inf; symmetrically for `Max()`); for a non-empty
+list of finite samples both are samples and they are the least / greatest sample VALUE, because on finite floats
+the IEEE order is the order of the exact values. -/
+theorem num_f64_minmax (keep : Bool) (l : List F64) :
+    let r := runFv keep l
+    r.min.isNaN = false ∧ r.max.isNaN = false ∧
+    (∀ y ∈ l, y.isNaN = false → F64.le r.min y = true ∧ F64.le y r.max = true) ∧
+    ((∃ y ∈ l, F64.lt y maxF64 = true) → r.min ∈ l) ∧
+    ((∀ y ∈ l, F64.lt y maxF64 = false) → r.min = maxF64) ∧
+    ((∃ y ∈ l, F64.lt (F64.neg maxF64) y = true) → r.max ∈ l) ∧
+    ((∀ y ∈ l, F64.lt (F64.neg maxF64) y = false) → r.max = F64.neg maxF64) ∧
+    (l ≠ [] → (∀ x ∈ l, x.isFinite = true) →
+      r.min ∈ l ∧ r.max ∈ l ∧ ∀ y ∈ l, r.min.toRat ≤ y.toRat ∧ y.toRat ≤ r.max.toRat) := by
+  intro r
+  have mm := minmax_fold keep l NumF.new isNaN_maxF64 isNaN_negMaxF64
+  simp only [] at mm
+  obtain ⟨a1, a2, _, _, a5, a6, _, _, a9, a10⟩ := mm
+  refine ⟨a1, a2, fun y hy hn => ⟨a5 y hy hn, a9 y hy hn⟩, a6, min_unchanged keep l NumF.new, a10,
+    max_unchanged keep l NumF.new, ?_⟩
+  intro hne hf
+  obtain ⟨m1, m2⟩ := minmax_mem_of_finite keep l hne hf
+  refine ⟨m1, m2, fun y hy => ?_⟩
+  have fy := hf y hy
+  exact ⟨(F64.le_iff_toRat_le (hf _ m1) fy).mp (a5 y hy (F64.not_nan_of_finite fy)),
+    (F64.le_iff_toRat_le fy (hf _ m2)).mp (a9 y hy (F64.not_nan_of_finite fy))⟩
+
+/-- Order statistics involve no arithmetic on the samples, hence no rounding: they ARE samples.
+`sort.Float64s` / `sort.Sort(sort.Reverse(…))` is specified by its contract only (Go's pdqsort is not stable): `s` is
+ANY arrangement of the kept samples `l` that is sorted for Go's order `goLess` (NaN before every number, `-0` and
+`+0` equal); the model's merge sort is one (1).  For every such `s`:
+(2) `Median()` is the element of rank ⌊n/2⌋;
+(3) `Quantile(p)` is the element of rank `clamp(int(float64(n)·p))` – the product is ONE correctly rounded float
+    multiplication, the conversion truncates (NaN / ±Inf / out of range give MinInt64 on amd64, i.e. rank 0), and the
+    clamps make every rank valid;
+(4) the element of any rank is the same for every sorted arrangement up to the sign of a zero / the identity of NaNs,
+    so the answers do not depend on the sorting algorithm;
+(5) ranks are ordered: nothing at a later rank sorts before anything at an earlier one (NaN samples occupy the
+    first ranks, the last ones when `Reverse` is set: `Median` / `Quantile` can return NaN only then);
+(6) for a probability `0 ≤ p ≤ 1` and at most 2^53 samples the raw index is ⌊fl(n·p)⌋ ∈ [0, n]: only the upper clamp
+    can act, and only when the rounded product reaches `n` (p = 1, or p within half an ulp of it – F20). -/
+theorem num_f64_order_stats (rev : Bool) (l s : List F64) (hne : l ≠ []) (hs : IsSortedF rev s l) :
+    IsSortedF rev (analyzeF rev l) l ∧
+    (∃ x, s[l.length / 2]? = some x ∧ medianF s = x ∧ x ∈ l) ∧
+    (∀ p : F64, ∃ x, s[clampIdx l.length (quantileIdx l.length p)]? = some x ∧ quantileF s p = .ok x ∧ x ∈ l) ∧
+    (∀ (s' : List F64) (k : Nat) (x x' : F64), IsSortedF rev s' l → s[k]? = some x → s'[k]? = some x' → sameF x x' = true) ∧
+    (∀ (i j : Nat) (x y : F64), i < j → s[i]? = some x → s[j]? = some y → (if rev then goLess x y else goLess y x) = false) ∧
+    (∀ p : F64, l.length ≤ 9007199254740992 → p.isFinite = true → 0 ≤ p.toRat → p.toRat ≤ 1 →
+      0 ≤ quantileIdx l.length p ∧ quantileIdx l.length p ≤ l.length ∧
+      quantileIdx l.length p =
+        (F64.ofRatS ((F64.ofInt l.length).sign != p.sign) ((l.length : Rat) * p.toRat)).toRat.floor) := by
+  have hlen : s.length = l.length := hs.1.length_eq
+  have hsne : s ≠ [] := by intro e; rw [e] at hs; exact hne hs.1.symm.eq_nil
+  have hpos : 0 < s.length := List.length_pos_iff.mpr hsne
+  refine ⟨analyzeF_sorted rev l, ?_, ?_, ?_, ?_, ?_⟩
+  · obtain ⟨x, hx, hm⟩ := medianF_eq s hsne
+    rw [hlen] at hx
+    exact ⟨x, hx, hm, hs.1.mem_iff.mp (List.mem_of_getElem? hx)⟩
+  · intro p
+    obtain ⟨x, hx, hq⟩ := quantileF_ok s hpos p
+    rw [hlen] at hx
+    exact ⟨x, hx, hq, hs.1.mem_iff.mp (List.mem_of_getElem? hx)⟩
+  · intro s' k x x' hs' hx hx'
+    exact rank_unique rev s s' l hs hs' k x x' hx hx'
+  · intro i j x y hij hx hy
+    have := sorted_rank_bounds rev s l hs i j hij x y hx hy
+    cases rev
+    · simp only [Bool.false_eq_true, if_false] at this ⊢; exact (goLess_false_iff _ _).mpr this
+    · simp only [if_true] at this ⊢; exact (goLess_false_iff _ _).mpr this
+  · intro p hn hp h0 h1
+    exact quantileIdx_bounds l.length hn p hp h0 h1
+
+/-- `Mode()` in floats, for samples without NaN.  The scan compares neighbours with the IEEE `!=`, so `-0` and `+0`
+are one value: the result `m` is not NaN, equals (`==`) a sample, no value occurs more often than `m` (multiplicities
+counted with `==`), and among the values of maximal multiplicity it is the smallest (the largest when `Reverse` is
+set) – for every sorted arrangement `s`.  NaN caveat (not covered here, exercised by the correspondence): every NaN
+starts a run of length one, so NaN can be returned only when no number occurs twice. -/
+theorem num_f64_mode (rev : Bool) (l s : List F64) (hne : l ≠ []) (hs : IsSortedF rev s l)
+    (hn : ∀ x ∈ l, x.isNaN = false) :
+    let m := modeF s
+    m.isNaN = false ∧ (∃ x ∈ l, F64.eq m x = true) ∧
+    (∀ y, l.countP (fun x => F64.eq y x) ≤ l.countP (fun x => F64.eq m x)) ∧
+    (∀ y ∈ l, l.countP (fun x => F64.eq y x) = l.countP (fun x => F64.eq m x) → F64.eq y m = false →
+      (if rev then F64.lt y m else F64.lt m y) = true) :=
+  modeF_scan rev s l hs hne hn
+
+/-- A SUFFICIENT EXACTNESS CONDITION.  If the samples are finite and every intermediate value of the exact
+(rational) Welford recurrence on their values – `x − mean`, `(x − mean)/k`, the new mean, `x − mean'`, the product
+and the new `M2` – is a float (`AllRep`; decidable on concrete lists: `allRepB`), then no operation rounds: the float
+aggregator holds EXACTLY the mean and `M2 = Σ (x − mean)²` of the sample values (`welford_exact`), and `Variance()`
+is exactly the sample variance whenever that quotient is a float.  Small integers with dyadic running means are
+such lists (examples below); constant samples are the simplest case (`num_f64_constant_exact`). -/
+theorem num_f64_exact_run (keep : Bool) (l : List F64) (hf : ∀ x ∈ l, x.isFinite = true)
+    (hn : l.length ≤ 9007199254740992) (hr : AllRep (Numerical.new ratOps) (l.map F64.toRat)) :
+    let r := runFv keep l
+    let q := l.map F64.toRat
+    r.samples = l.length ∧ r.mean.toRat? = some (mean q) ∧ r.variance.toRat? = some (m2 q) ∧
+    (F64.Rep (sampleVariance q) → r.varianceF.toRat? = some (sampleVariance q)) := by
+  intro r q
+  have hs := exact_run keep l hf hn hr
+  obtain ⟨w1, w2, w3, w4, _⟩ := welford_exact false q
+  have hlen : q.length = l.length := by simp [q]
+  refine ⟨runFv_samples keep l, ?_, ?_, ?_⟩
+  · rw [F64.toRat?_eq_some]; exact ⟨hs.meanF, by rw [hs.meanV, w2]⟩
+  · rw [F64.toRat?_eq_some]; exact ⟨hs.varF, by rw [hs.varV, w3]⟩
+  · intro hrep
+    have hv : r.varianceF = if l.length > 1 then F64.div r.variance (F64.ofInt ((l.length - 1 : Nat) : Int))
+        else F64.zero false := by
+      show Numerical.varianceOf f64Ops r = _
+      unfold Numerical.varianceOf; rw [runFv_samples]; rfl
+    have hsv : sampleVariance q = if l.length > 1 then m2 q / ((l.length : Rat) - 1) else 0 := by
+      unfold sampleVariance; rw [hlen]
+    rw [hsv] at hrep ⊢
+    rw [hv]
+    by_cases hgt : l.length > 1
+    · rw [if_pos hgt] at hrep ⊢
+      rw [if_pos hgt]
+      obtain ⟨kf, kv, kz⟩ := ofInt_count (l.length - 1) (by omega) (by omega)
+      have hc : ((l.length - 1 : Nat) : Rat) = (l.length : Rat) - 1 := by
+        obtain ⟨k, hk⟩ : ∃ k, l.length = k + 1 := ⟨l.length - 1, by omega⟩
+        rw [hk]; simp [Rat.natCast_add]; grind
+      rw [F64.div_finite hs.varF kf kz, kv, hs.varV, w3, hc]
+      obtain ⟨a, b⟩ := F64.ofRatS_rep (r.variance.sign != (F64.ofInt ((l.length - 1 : Nat) : Int)).sign) hrep
+      rw [F64.toRat?_eq_some]; exact ⟨a, b⟩
+    · rw [if_neg hgt, if_neg hgt]
+      rw [F64.toRat?_eq_some]
+      exact ⟨by decide, F64.toRat_eq_zero_of_mag (x := F64.zero false) (by decide)⟩
+
+/-- Constant samples (any finite float, up to 2^53 of them): after every prefix the mean is EXACTLY the sample
+(the same bit pattern unless the sample is `-0`, whose mean is `+0`), `M2`, `Variance()` and `StdDev()` are exactly 0 –
+Welford's update has nothing to cancel (the sum-of-squares formula of seeded/C07-variance-sumsq does not have this
+property). -/
+theorem num_f64_constant_exact (keep : Bool) (x : F64) (hx : x.isFinite = true) (n : Nat) (hn : n + 1 ≤ 9007199254740992) :
+    let r := runFv keep (List.replicate (n + 1) x)
+    r.mean.toRat? = some x.toRat ∧ (x.toRat ≠ 0 → r.mean = x) ∧
+    r.variance.toRat? = some 0 ∧ r.varianceF.toRat? = some 0 ∧ r.stdDev.toRat? = some 0 := by
+  intro r
+  obtain ⟨a, b, c, d⟩ := const_run keep x hx n hn
+  have hvF : r.varianceF.isFinite = true ∧ r.varianceF.toRat = 0 := by
+    have hv : r.varianceF = if n + 1 > 1 then F64.div r.variance (F64.ofInt ((n + 1 - 1 : Nat) : Int))
+        else F64.zero false := by
+      show Numerical.varianceOf f64Ops r = _
+      unfold Numerical.varianceOf
+      have hsn : r.samples = n + 1 := by rw [runFv_samples]; simp
+      rw [hsn]; rfl
+    rw [hv]
+    by_cases hgt : n + 1 > 1
+    · rw [if_pos hgt]
+      obtain ⟨kf, kv, kz⟩ := ofInt_count (n + 1 - 1) (by omega) (by omega)
+      rw [F64.div_finite c kf kz, d]
+      have : (0 : Rat) / (F64.ofInt ((n + 1 - 1 : Nat) : Int)).toRat = 0 := by grind
+      rw [this]
+      exact F64.ofRatS_rep _ F64.rep_zero
+    · rw [if_neg hgt]
+      exact ⟨by decide, F64.toRat_eq_zero_of_mag (x := F64.zero false) (by decide)⟩
+  refine ⟨by rw [F64.toRat?_eq_some]; exact ⟨a, b⟩, fun hne => F64.eq_of_toRat_eq a hx b (by rw [b]; exact hne),
+    by rw [F64.toRat?_eq_some]; exact ⟨c, d⟩, by rw [F64.toRat?_eq_some]; exact hvF, ?_⟩
+  have hz : r.varianceF.isZero = true := (F64.isZero_iff _).mpr ((F64.toRat_eq_zero_iff _).mp hvF.2)
+  have : r.stdDev = r.varianceF := by
+    show F64.sqrt r.varianceF = r.varianceF
+    unfold F64.sqrt
+    rw [F64.not_nan_of_finite hvF.1, hz]; rfl
+  rw [this, F64.toRat?_eq_some]; exact hvF
+
+/-- The mean lies between `Min()` and `Max()`.  For a non-empty list of at most 2^53 finite samples of magnitude at
+most 2^1021 (so that no difference of two of them overflows): `Min()` and `Max()` are samples, the mean is finite, and
+`Min() ≤ Mean() ≤ Max()` in the IEEE order = in exact value – after every prefix, since this holds for every list.
+Rounding is monotone, so no update can push the mean past the old mean or the new sample.  Without the magnitude
+bound it is false: for `-MaxFloat64, MaxFloat64` the difference overflows and the mean is `+Inf` (corpus case). -/
+theorem num_f64_mean_between_min_max (keep : Bool) (l : List F64) (hne : l ≠ []) (hn : l.length ≤ 9007199254740992)
+    (hl : ∀ x ∈ l, x.isFinite = true ∧ -((2 ^ 1021 : Nat) : Rat) ≤ x.toRat ∧ x.toRat ≤ ((2 ^ 1021 : Nat) : Rat)) :
+    let r := runFv keep l
+    r.min ∈ l ∧ r.max ∈ l ∧ r.mean.isFinite = true ∧
+    F64.le r.min r.mean = true ∧ F64.le r.mean r.max = true ∧
+    r.min.toRat ≤ r.mean.toRat ∧ r.mean.toRat ≤ r.max.toRat := by
+  intro r
+  have hf : ∀ x ∈ l, x.isFinite = true := fun x hx => (hl x hx).1
+  obtain ⟨_, _, _, _, _, _, _, hfin⟩ := num_f64_minmax keep l
+  obtain ⟨m1, m2, hb⟩ := hfin hne hf
+  have b1 := hl _ m1
+  have b2 := hl _ m2
+  rw [← bigB_eq] at b1 b2
+  obtain ⟨mf, lo, hi⟩ := mean_between keep r.min.toRat r.max.toRat b1.2.1 b2.2.2 l hne hn
+    (fun x hx => ⟨hf x hx, (hb x hx).1, (hb x hx).2⟩)
+  exact ⟨m1, m2, mf, (F64.le_iff_toRat_le b1.1 mf).mpr lo, (F64.le_iff_toRat_le mf b2.1).mpr hi, lo, hi⟩
+
+/-- `M2` never goes negative: under the same hypotheses (the empty list included) the accumulated `M2`, `Variance()`
+and `StdDev()` are never NaN and never below zero (`+Inf` when a product overflows) – each increment
+`(x − oldMean)·(x − newMean)` is a product of two differences of the same sign, because the new mean lies between
+the old mean and the sample.  No clamp is needed (the sum-of-squares variant needs one and still cancels). -/
+theorem num_f64_variance_nonneg (keep : Bool) (l : List F64) (hn : l.length ≤ 9007199254740992)
+    (hl : ∀ x ∈ l, x.isFinite = true ∧ -((2 ^ 1021 : Nat) : Rat) ≤ x.toRat ∧ x.toRat ≤ ((2 ^ 1021 : Nat) : Rat)) :
+    let r := runFv keep l
+    F64.le (F64.zero false) r.variance = true ∧ F64.le (F64.zero false) r.varianceF = true ∧
+    F64.le (F64.zero false) r.stdDev = true ∧ r.stdDev.isNaN = false := by
+  intro r
+  obtain ⟨a, b, c⟩ := var_nonneg keep l hn (fun x hx => by rw [bigB_eq]; exact hl x hx)
+  have hz : (F64.zero false).isNaN = false := by decide
+  have hk : (F64.zero false).key = 0 := by decide
+  have conv : ∀ v : F64, VarOK v → F64.le (F64.zero false) v = true := by
+    intro v hv
+    rw [le_iff_key]; exact ⟨hz, hv.1, by rw [hk]; exact hv.2⟩
+  exact ⟨conv _ a, conv _ b, conv _ c, c.1⟩
+
+/-! ### non-vacuity of the float theorems -/
+
+/-- "1.5", "x", "-2", "1e999" (range error), "0x1p-1", "nan". -/
+def exNumHist : List Bytes := [[49, 46, 53], [120], [45, 50], [49, 101, 57, 57, 57], [48, 120, 49, 112, 45, 49], [110, 97, 110]]
+example : ((runF true exNumHist).samples, (runF true exNumHist).parseErrors, (runF true exNumHist).values.length) = (4, 2, 4) := by
+  decide +kernel
+/-- 1, 2, 3, 4 (running means 1, 1.5, 2, 2.5) and the odd numbers 1 … 15 (running means 1 … 8) as floats. -/
+def exInts : List F64 := [1, 2, 3, 4].map F64.ofInt
+def exInts8 : List F64 := [1, 3, 5, 7, 9, 11, 13, 15].map F64.ofInt
+example : ∀ x ∈ exInts8, x.isFinite = true := by decide +kernel
+example : AllRep (Numerical.new ratOps) (exInts.map F64.toRat) := allRep_of_allRepB _ _ (by decide +kernel)
+example : AllRep (Numerical.new ratOps) (exInts8.map F64.toRat) := allRep_of_allRepB _ _ (by decide +kernel)
+/-- mean 8, M2 168, sample variance 24 (a float), computed without any rounding. -/
+example : (runFv true exInts8).mean = F64.ofInt 8 ∧ (runFv true exInts8).variance = F64.ofInt 168 ∧
+    (runFv true exInts8).varianceF = F64.ofInt 24 := by decide +kernel
+example : F64.Rep (sampleVariance (exInts8.map F64.toRat)) := rep_of_repB (by decide +kernel)
+/-- 2, 4, 4: the running mean 10/3 is not a float – the condition fails, the mean is rounded. -/
+example : allRepB (Numerical.new ratOps) (([2, 4, 4].map F64.ofInt).map F64.toRat) = false := by decide +kernel
+/-- 0.1 + 0.2 + 0.3 does round: the condition is not vacuous. -/
+example : allRepB (Numerical.new ratOps) ([F64.ofRat (1/10), F64.ofRat (2/10), F64.ofRat (3/10)].map F64.toRat) = false := by
+  decide +kernel
+example : ∀ x ∈ exInts, x.isFinite = true ∧ -((2 ^ 1021 : Nat) : Rat) ≤ x.toRat ∧ x.toRat ≤ ((2 ^ 1021 : Nat) : Rat) := by
+  decide +kernel
+/-- a sorted arrangement with both zeros and a NaN: `[NaN, -0, +0, 1]` and `[NaN, +0, -0, 1]` are both sorted. -/
+def exMixed : List F64 := [F64.ofInt 1, F64.zero true, F64.nan, F64.zero false]
+example : IsSortedF false [F64.nan, F64.zero true, F64.zero false, F64.ofInt 1] exMixed ∧
+    IsSortedF false [F64.nan, F64.zero false, F64.zero true, F64.ofInt 1] exMixed := by
+  exact ⟨⟨by decide +kernel, by decide +kernel⟩, ⟨by decide +kernel, by decide +kernel⟩⟩
+/-- the `+Inf` sentinel quirk and the overflow witness are real -/
+example : (runFv false [F64.inf false, F64.inf false]).min = maxF64 := by decide +kernel
+example : (runFv false [F64.neg maxF64, maxF64]).mean = F64.inf false := by decide +kernel
+
+/-! ## `rare reduce` with the static optimiser on (C07 × C10)
+
+`Model/C07AccCompile.lean`: the configuration calls with TEMPLATES, compiled by the shared expression model
+`Rare.Expr.compile reg opt` exactly where accumulator.go calls `s.compiler.Compile` (after the "data exists" /
+"duplicate name" checks).  `opt` is the static-optimisation switch of the key builder (on in `rare reduce`). -/
+
+/-- The optimiser is invisible to the aggregator: whenever a call sequence (configuration and samples, in any
+order) runs with the optimising compiler without a compile-time panic, the same sequence with the plain
+compiler yields the SAME aggregator – same definitions (the compiled expressions are equal as interaction trees:
+C10 `compile_opt_sound`), same rows, same returned errors. -/
+theorem accgroup_optimizer_invisible (reg : Rare.Expr.Registry) (ops : List AccTOp) (s : AccGroup)
+    (r : AccGroup × List (Option String)) (h : s.applyAllT reg true ops = .ok r) :
+    s.applyAllT reg false ops = .ok r :=
+  applyAllT_opt reg ops s r h
+
+/-- `accgroup_fold` for expressions compiled with the optimiser ON.  Configure a fresh aggregator through the
+optimising compiler (`cfg`: any `AddGroupExpr` / `AddDataExpr` / `SetSort` calls; hypothesis: no compile-time
+panic).  Then (1) the plain compiler gives the same aggregator `s0`, so (2) for every sample history the state is
+the left fold of the spec whose column functions are the UNOPTIMISED compiled templates of `s0` – both fail with
+the same panic, or both succeed with the same rows. -/
+theorem accgroup_fold_optimized (reg : Rare.Expr.Registry) (cfg : List AccTOp) (s0 : AccGroup) (errs : List (Option String))
+    (h : ({} : AccGroup).applyAllT reg true cfg = .ok (s0, errs)) (hist : List Bytes) :
+    ({} : AccGroup).applyAllT reg false cfg = .ok (s0, errs) ∧ AccReach s0 ∧
+    (match s0.run hist, hist.foldlM (specSample s0.specGroups s0.specCols) (fun k => aget s0.data k) with
+     | .ok s, .ok st => (∀ k, aget s.data k = st k) ∧ SameDefs s0 s
+     | .error m, .error m' => m = m'
+     | _, _ => False) := by
+  have hr : AccReach s0 := reach_applyAllT reg true cfg {} (s0, errs) AccReach.init h
+  refine ⟨applyAllT_opt reg cfg {} _ h, hr, ?_⟩
+  have := accgroup_fold s0 hr hist
+  revert this
+  cases s0.run hist <;> cases hist.foldlM (specSample s0.specGroups s0.specCols) (fun k => aget s0.data k) <;> simp
+  intro a b _; exact ⟨a, b⟩
+
+/-- For a registry of panic-free builders (C08 `SafeRegistry`, e.g. the standard helpers that are modelled) the
+hypothesis always holds: configuration never panics, with or without the optimiser, both give the same fresh
+aggregator (no rows), and its state after any history is `specRun` of that history. -/
+theorem accgroup_fold_optimized_safe (reg : Rare.Expr.Registry) (hreg : Rare.Expr.SafeRegistry reg)
+    (cfg : List AccTOp) (hcfg : ∀ op ∈ cfg, op.isSample = false) (hist : List Bytes) :
+    ∃ s0 errs, ({} : AccGroup).applyAllT reg true cfg = .ok (s0, errs) ∧
+      ({} : AccGroup).applyAllT reg false cfg = .ok (s0, errs) ∧ AccReach s0 ∧ s0.data = [] ∧
+      (match s0.run hist, specRun s0.specGroups s0.specCols hist with
+       | .ok s, .ok st => (∀ k, aget s.data k = st k) ∧ SameDefs s0 s
+       | .error m, .error m' => m = m'
+       | _, _ => False) := by
+  obtain ⟨s0, errs, h, hd⟩ := applyAllT_cfg_ok reg hreg true cfg {} hcfg
+  have hr : AccReach s0 := reach_applyAllT reg true cfg {} (s0, errs) AccReach.init h
+  exact ⟨s0, errs, h, applyAllT_opt reg cfg {} _ h, hr, hd, accgroup_fold_init s0 hr hd hist⟩
+
+/-- non-vacuity: the registry without helpers is (vacuously) safe; `g={1}`, `c={.}x`, `l={c}:{2}`, a duplicate and a sort. -/
+def exReg : Rare.Expr.Registry := fun _ => none
+example : Rare.Expr.SafeRegistry exReg := by intro name b h; cases h
+def exCfg : List AccTOp :=
+  [.addGroup [103] "{1}".toList, .addData [99] "{.}x".toList [], .addData [108] "{c}:{2}".toList [45],
+   .addData [99] "{2}".toList [], .setSort "{c}".toList]
+example : ∀ op ∈ exCfg, op.isSample = false := by decide
 
 end Rare.C07
